@@ -162,3 +162,27 @@ def sheet(title, cells=None, **kw):
 
 def spec(*sheets):
     return {'sheets': list(sheets)}
+
+
+def replace_cell_xml(path, sheet_no, addr, raw):
+    """rewrite ONE cell element of xl/worksheets/sheet<sheet_no>.xml (1-based) with the given raw XML (a cell as another writer would store
+    it: a shared-string cell without a value, an error-typed cell, rich text ...).  -> True when the element was found"""
+    import os
+    import shutil
+    import tempfile
+    import zipfile
+    name = f'xl/worksheets/sheet{sheet_no}.xml'
+    tmp = tempfile.mktemp(suffix='.xlsx', dir=os.path.dirname(path))
+    found = False
+    with zipfile.ZipFile(path) as zin, zipfile.ZipFile(tmp, 'w', zipfile.ZIP_DEFLATED) as zout:
+        for item in zin.infolist():
+            data = zin.read(item.filename)
+            if item.filename == name:
+                text = data.decode('utf-8')
+                pat = re.compile(r'<c r="%s"(?: [^>]*)?(?:/>|>.*?</c>)' % re.escape(addr), re.S)
+                text, n = pat.subn(lambda m: raw, text, count=1)
+                found = n == 1
+                data = text.encode('utf-8')
+            zout.writestr(item, data)
+    shutil.move(tmp, path)
+    return found
